@@ -148,12 +148,12 @@ Proof.
 Qed.
 
 (* ---- the induction ------------------------------------------------------------------------------------ *)
-Lemma loop_pf_mono proc tm vl k par db pr lg l : forall iend kids anims nst iF kF aF pF nF,
-  children_loop proc tm vl k par db pr lg l iend kids anims true nst = LDone iF kF aF pF nF -> pF = true.
+Lemma loop_pf_mono proc tm vl k par db pr lg l : forall iend send kids anims nst iF kF aF pF nF,
+  children_loop proc tm vl k par db pr lg l iend send kids anims true nst = LDone iF kF aF pF nF -> pF = true.
 Proof.
-  induction l as [|c l IH]; intros iend kids anims nst iF kF aF pF nF H; cbn [children_loop] in H.
+  induction l as [|c l IH]; intros iend send kids anims nst iF kF aF pF nF H; cbn [children_loop] in H.
   - inversion H; reflexivity.
-  - revert H. break_match; intro H; try discriminate; eapply IH; exact H.
+  - revert H. break_match; intro H; try discriminate; try (inversion H; reflexivity); eapply IH; exact H.
 Qed.
 
 Lemma is_style_not_timed c : is_style_elem c = true -> timed c = false.
@@ -189,20 +189,19 @@ Section Main.
         oq_rel (r_des_end r) (snd (interval (tv_of ev) (negb (pc_par pc)) sync x)).
 
   Lemma loop_par k db pr lg l : Forall sound l ->
-    forall iend kids anims pf nst iF kF aF nF acc,
-      children_loop (process ev) (e_to_model ev) (e_valid ev) k true db pr lg l iend kids anims pf nst = LDone iF kF aF false nF ->
+    forall iend send kids anims pf nst iF kF aF nF acc,
+      children_loop (process ev) (e_to_model ev) (e_valid ev) k true db pr lg l iend send kids anims pf nst = LDone iF kF aF false nF ->
       oq_rel iend (oadd db acc) ->
       oq_rel iF (oadd db (par_dur (interval (tv_of ev)) (k_is_mixed k) l acc)).
   Proof.
-    induction 1 as [|c l Hc Hl IH]; intros iend kids anims pf nst iF kF aF nF acc H Hrel.
+    induction 1 as [|c l Hc Hl IH]; intros iend send kids anims pf nst iF kF aF nF acc H Hrel.
     - cbn [children_loop] in H. inversion H; subst. exact Hrel.
-    - cbn [children_loop par_dur] in H |- *. rewrite andb_true_r in H.
+    - cbn [children_loop par_dur] in H |- *. rewrite andb_true_r in H. cbn [negb andb] in H.
       destruct (ekind_eqb k KRegion && is_style_elem c) eqn:Est.
       { apply andb_true_iff in Est as [Ek Es]. rewrite (is_style_not_timed c Es).
         assert (k = KRegion) by (destruct k; try discriminate; reflexivity). subst k. cbn [k_is_mixed andb].
-        destruct (merge_absent (e_valid ev) (collect (e_to_model ev) (x_attrs c) []) nst); [|discriminate].
         eapply IH; eassumption. }
-      destruct (process ev (mkPctx true iend db pr lg (negb (ekind_eqb k KSet))) c) as [e| |r] eqn:Ep.
+      destruct (process ev (mkPctx true send pr lg (negb (ekind_eqb k KSet))) c) as [e| |r] eqn:Ep.
       + discriminate.
       + rewrite (process_skip_timed _ _ _ Ep).
         destruct (x_tail c) as [t|]; cbn [has_text].
@@ -230,39 +229,43 @@ Section Main.
         * rewrite andb_false_r. eapply IH; [exact H|]. exact Hstep.
   Qed.
 
+  (* sequential container: [send] is the end of the previous child (the cursor of the specification); while the implicit end is
+     known it is that cursor plus the begin of the container; once it is unknown it stays unknown *)
   Lemma loop_seq k db pr lg l : Forall sound l ->
-    forall iend kids anims pf nst iF kF aF nF,
-      children_loop (process ev) (e_to_model ev) (e_valid ev) k false db pr lg l iend kids anims pf nst = LDone iF kF aF false nF ->
+    forall iend send kids anims pf nst iF kF aF nF,
+      children_loop (process ev) (e_to_model ev) (e_valid ev) k false db pr lg l iend send kids anims pf nst = LDone iF kF aF false nF ->
       match iend with
-      | Some ie => forall cursor, (ie - db == cursor)%Q -> oq_rel iF (oadd db (seq_dur (interval (tv_of ev)) l cursor))
+      | Some ie => forall cursor, send = Some cursor -> (ie == cursor + db)%Q -> oq_rel iF (oadd db (seq_dur (interval (tv_of ev)) l cursor))
       | None => iF = None
       end.
   Proof.
-    induction 1 as [|c l Hc Hl IH]; intros iend kids anims pf nst iF kF aF nF H.
+    induction 1 as [|c l Hc Hl IH]; intros iend send kids anims pf nst iF kF aF nF H.
     - cbn [children_loop] in H. inversion H; subst. destruct iF as [ie|]; [|reflexivity].
-      intros cursor Hcur. cbn [seq_dur oadd oq_rel]. rewrite <- Hcur. ring.
-    - cbn [children_loop] in H. rewrite andb_false_r in H.
+      intros cursor _ Hcur. cbn [seq_dur oadd oq_rel]. rewrite Hcur. ring.
+    - cbn [children_loop] in H. rewrite andb_false_r in H. cbn [negb andb] in H.
       destruct (ekind_eqb k KRegion && is_style_elem c) eqn:Est.
       { apply andb_true_iff in Est as [Ek Es].
-        destruct (merge_absent (e_valid ev) (collect (e_to_model ev) (x_attrs c) []) nst); [|discriminate].
-        specialize (IH _ _ _ _ _ _ _ _ _ H).
-        destruct iend as [ie|]; [|exact IH]. intros cursor Hcur. cbn [seq_dur]. rewrite (is_style_not_timed c Es). apply IH; exact Hcur. }
-      destruct (process ev (mkPctx false iend db pr lg (negb (ekind_eqb k KSet))) c) as [e| |r] eqn:Ep.
+        specialize (IH _ _ _ _ _ _ _ _ _ _ H).
+        destruct iend as [ie|]; [|exact IH]. intros cursor Hse Hcur. cbn [seq_dur]. rewrite (is_style_not_timed c Es). apply IH; assumption. }
+      destruct send as [cur|].
+      2:{ (* break *) inversion H; subst. destruct iF as [ie|]; [|reflexivity]. intros cursor Hse. discriminate. }
+      destruct (process ev (mkPctx false (Some cur) pr lg (negb (ekind_eqb k KSet))) c) as [e| |r] eqn:Ep.
       + discriminate.
-      + assert (H' : children_loop (process ev) (e_to_model ev) (e_valid ev) k false db pr lg l iend kids anims pf nst = LDone iF kF aF false nF).
+      + assert (H' : children_loop (process ev) (e_to_model ev) (e_valid ev) k false db pr lg l iend (Some cur) kids anims pf nst = LDone iF kF aF false nF).
         { destruct (x_tail c); exact H. }
-        specialize (IH _ _ _ _ _ _ _ _ _ H').
-        destruct iend as [ie|]; [|exact IH]. intros cursor Hcur. cbn [seq_dur]. rewrite (process_skip_timed _ _ _ Ep). apply IH; exact Hcur.
-      + destruct iend as [ie|].
-        2:{ exfalso. eapply process_no_syncbase; [|exact Ep]. reflexivity. }
-        assert (Hpf : pf || r_pushfail r = false).
+        specialize (IH _ _ _ _ _ _ _ _ _ _ H').
+        destruct iend as [ie|]; [|exact IH]. intros cursor Hse Hcur. cbn [seq_dur]. rewrite (process_skip_timed _ _ _ Ep). apply IH; assumption.
+      + assert (Hpf : pf || r_pushfail r = false).
         { destruct (pf || r_pushfail r) eqn:E; [|reflexivity].
           exfalso. revert H. destruct (x_tail c); intro H; apply loop_pf_mono in H; discriminate. }
         apply orb_false_iff in Hpf as [Hpf1 Hpf2]. rewrite Hpf1, Hpf2 in H. cbn [orb] in H.
         destruct (Hc _ _ Ep Hpf2) as [sync [Hs [_ He]]].
-        cbn [implicit_begin pc_par pc_impl_end pc_des_begin] in Hs. inversion Hs; subst sync. cbn [pc_par negb] in He.
+        cbn [implicit_begin pc_par pc_seq_end] in Hs. inversion Hs; subst sync. cbn [pc_par negb] in He.
         assert (H' : children_loop (process ev) (e_to_model ev) (e_valid ev) k false db pr lg l
-                       (match r_des_end r with Some ce => Some (ce + db)%Q | None => None end)
+                       (match iend with
+                        | Some _ => match r_des_end r with Some ce => Some (ce + db)%Q | None => None end
+                        | None => None end)
+                       (r_des_end r)
                        (match r_node r with
                         | Some n => if negb (ekind_eqb (r_kind r) KSet) &&
                                        match r_des_end r with None => true | Some ce => negb (Qeq_bool (r_des_begin r) ce) end
@@ -270,12 +273,12 @@ Section Main.
                         | None => kids end)
                        (match r_anim r with Some a => anims ++ [a] | None => anims end) false nst = LDone iF kF aF false nF).
         { destruct (x_tail c); exact H. }
-        specialize (IH _ _ _ _ _ _ _ _ _ H').
-        intros cursor Hcur. cbn [seq_dur]. rewrite (process_ok_timed _ _ _ _ Ep).
-        destruct (interval_sync (tv_of ev) true (ie - db) cursor c Hcur) as [_ Hsync].
-        pose proof (oq_rel_trans _ _ _ He Hsync) as He'.
-        destruct (r_des_end r) as [ce|], (snd (interval (tv_of ev) true cursor c)) as [s|]; simpl in He'; try tauto.
-        * apply IH. rewrite <- He'. ring.
+        specialize (IH _ _ _ _ _ _ _ _ _ _ H').
+        destruct iend as [ie|]; [|exact IH].
+        intros cursor Hse Hcur. inversion Hse; subst cursor. cbn [seq_dur]. rewrite (process_ok_timed _ _ _ _ Ep).
+        destruct (r_des_end r) as [ce|], (snd (interval (tv_of ev) true cur c)) as [s|] eqn:Es; simpl in He; try tauto.
+        * eapply oq_rel_trans; [apply (IH ce eq_refl); reflexivity|].
+          apply oadd_compat; [reflexivity|]. apply seq_dur_compat. exact He.
         * subst iF. exact I.
   Qed.
 End Main.
@@ -320,10 +323,10 @@ Proof.
   set (preserve := if ekind_eqb k KSet then pc_preserve pc else read_space attrs (pc_preserve pc)) in *.
   set (iend0 := if k_indefinite_in_par k && pc_par pc then None else Some dbegin) in *.
   set (iend1 := match txt with Some t => if k_is_mixed k && par then None else iend0 | None => iend0 end) in *.
-  destruct (children_loop (process ev) (e_to_model ev) (e_valid ev) k par dbegin preserve lang cs iend1
+  destruct (children_loop (process ev) (e_to_model ev) (e_valid ev) k par dbegin preserve lang cs iend1 (Some 0%Q)
               (match txt with Some t => if k_is_mixed k && par then [anon_span k preserve lang t] else [] | None => [] end) [] false [])
-    as [e|iF kF aF pF nF] eqn:Eloop; [discriminate|].
-  destruct (if k_has_styles k then referential (e_valid ev) (e_styles ev) (rev (style_refs attrs)) nF else Some nF) as [st1|]; [|discriminate].
+    as [iF kF aF pF nF|e] eqn:Eloop; [|discriminate].
+  set (st1 := if k_has_styles k then referential (e_valid ev) (e_styles ev) (rev (style_refs attrs)) nF else nF) in *.
   destruct (if k_has_children k then push_children k kF else ([], true)) as [pushed ok] eqn:Epush.
   destruct ok; cbn [negb] in H.
   2:{ inversion H; subst r. discriminate. }
@@ -346,12 +349,12 @@ Proof.
   - (* indefinite from the start *)
     assert (Hi1 : iend1 = None). { unfold iend1, iend0. destruct txt; [destruct (k_is_mixed k && par)|]; reflexivity. }
     rewrite Hi1 in Eloop. destruct par eqn:Epar.
-    + pose proof (loop_par ev k dbegin preserve lang cs IHcs _ _ _ _ _ _ _ _ _ None Eloop I) as Hl.
+    + pose proof (loop_par ev k dbegin preserve lang cs IHcs _ _ _ _ _ _ _ _ _ _ None Eloop I) as Hl.
       rewrite par_dur_none in Hl. destruct iF; simpl in Hl; [contradiction|exact I].
-    + pose proof (loop_seq ev k dbegin preserve lang cs IHcs _ _ _ _ _ _ _ _ _ Eloop) as Hl. cbn in Hl. subst iF. exact I.
+    + pose proof (loop_seq ev k dbegin preserve lang cs IHcs _ _ _ _ _ _ _ _ _ _ Eloop) as Hl. cbn in Hl. subst iF. exact I.
   - destruct par eqn:Epar; cbn [negb].
     + rewrite andb_true_r in *.
-      pose proof (loop_par ev k dbegin preserve lang cs IHcs _ _ _ _ _ _ _ _ _
+      pose proof (loop_par ev k dbegin preserve lang cs IHcs _ _ _ _ _ _ _ _ _ _
                     (if k_is_mixed k && has_text txt then None else Some 0%Q) Eloop) as Hl.
       assert (Hrel : oq_rel iend1 (oadd dbegin (if k_is_mixed k && has_text txt then None else Some 0%Q))).
       { unfold iend1, iend0. destruct txt; cbn [has_text]; [destruct (k_is_mixed k); cbn [andb oadd oq_rel]|rewrite andb_false_r; cbn [oadd oq_rel]]; try exact I; ring. }
@@ -360,6 +363,6 @@ Proof.
     + rewrite andb_false_r in *.
       assert (Hi1 : iend1 = Some dbegin). { unfold iend1, iend0. destruct txt; [rewrite andb_false_r|]; reflexivity. }
       rewrite Hi1 in Eloop.
-      pose proof (loop_seq ev k dbegin preserve lang cs IHcs _ _ _ _ _ _ _ _ _ Eloop 0%Q) as Hl.
+      pose proof (loop_seq ev k dbegin preserve lang cs IHcs _ _ _ _ _ _ _ _ _ _ Eloop 0%Q eq_refl) as Hl.
       eapply oq_rel_trans; [apply Hl; ring|]. apply oadd_compat; [exact Hb|apply oq_rel_refl].
 Qed.
